@@ -105,6 +105,48 @@ def c14_history(mi: int, ki: int, a: int, b_: int, c: int, d: int, plus: bool) -
     return True
 
 
+NEAR = [(128.0, Fraction(1, 128)), (64.0, Fraction(1, 64)), (32.0, Fraction(1, 32)), (value.dots(64), Fraction(3, 128)), (4.0, Fraction(1, 4)), (value.triplet(64), Fraction(1, 96))]
+FILLERS = [(2.0, Fraction(1, 2)), (4.0, Fraction(1, 4)), (8.0, Fraction(1, 8)), (16.0, Fraction(1, 16)), (32.0, Fraction(1, 32)), (64.0, Fraction(1, 64)), (128.0, Fraction(1, 128))]
+
+
+def c14_near_full(mi: int, stop: int, ai: int, bi: int) -> bool:
+    """bars that are almost full: a halving run 1/2, 1/4, ... down to 1/2^(stop+1) (in as many bars as it takes),
+    then two more items from a list of short values: a new bar may be opened only when the last one is full"""
+    meter = pick([(4, 4), (3, 4), (2, 2), (1, 8), (6, 8)], mi)
+    stop = enum(stop, 0, 7)
+    cap = Fraction(meter[0], meter[1])
+    t = Track()
+    t.add_bar(Bar("G", meter))
+    model = [[]]
+    items = FILLERS[: stop + 1] + [pick(NEAR, ai), pick(NEAR, bi)]
+    for fv, ex in items:
+        used = sum(model[-1], Fraction(0))
+        full = len(model[-1]) > 0 and cap - used < Fraction(1, 1000)
+        if full:
+            target_used = Fraction(0)
+        else:
+            target_used = used
+        ok = target_used + ex <= cap
+        got = t.add_notes(Note("D", 4), fv)
+        if bool(got) != ok:
+            return False
+        if full and not ok:
+            return True  # known finding (fresh empty bar left behind); not followed further
+        if ok:
+            if full:
+                model.append([])
+            model[-1].append(ex)
+        if len(t) != len(model):
+            return False
+        for bar, mb in zip(t.bars, model):
+            if len(bar) != len(mb) or bar.meter != meter or bar.key.key != "G":
+                return False
+            tot = sum((Fraction(1) / Fraction(e[1]) for e in bar.bar), Fraction(0))
+            if abs(tot - sum(mb, Fraction(0))) > Fraction(1, 10 ** 9):
+                return False
+    return True
+
+
 INSTR = [("Instrument", Instrument, 0, 96), ("Piano", Piano, 5, 107), ("Guitar", Guitar, 40, 88), ("MidiInstrument", MidiInstrument, 0, 107)]
 NAMES = ["C", "E", "F", "B", "B#", "Cb", "F#", "Eb"]
 
@@ -238,6 +280,8 @@ def claims(tier):
     for ii in range(4):
         for fm in range(4):
             cl.append(Claim("range[%s,form=%d]" % (INSTR[ii][0], fm), c14_range, params={"ii": ii, "fm": fm}, group="c14_range", pre=[lambda ii, ni, o, form: ii == P["ii"] and 0 <= ni < len(NAMES) and 0 <= o <= 10 and form == P["fm"]], timeout=1200 if q else 3000, bounds="%s x %d names x octave symbolic 0..10 x form %s; a rest is added first and after" % (INSTR[ii][0], len(NAMES), ["Note", "NoteContainer", "list of Notes", "two-note container"][fm])))
+    for mi in range(5):
+        cl.append(Claim("near_full[m%d]" % mi, c14_near_full, params={"mi": mi}, group="c14_near_full", pre=[lambda mi, stop, ai, bi: mi == P["mi"] and 0 <= stop <= 6 and 0 <= ai < len(NEAR) and 0 <= bi < len(NEAR)], timeout=1200 if q else 3000, bounds="meter %d of 5: halving run down to 1/2^(1..7) then two items from %d short values; bar opening and contents against the exact model" % (mi, len(NEAR))))
     cl.append(Claim("probe_history", c14_history, params={"nv": 4, "depth": 3, "mi": 1, "first": 1, "exclude_known": False}, group="c14_history", pre=[], probe_only=True))
     cl.append(Claim("from_chords", c14_from_chords, pre=[lambda si, di: 0 <= si < len(SHAPES) and 0 <= di < 3], timeout=1200, bounds="%d nested chord-list shapes (depth <= 3, rests) x durations 1, 2, 4" % len(SHAPES)))
     cl.append(Claim("composition", c14_composition, pre=[lambda n, sel, k: 1 <= n <= 3 and 0 <= sel < 3 and 0 <= k < 3], timeout=600, bounds="1..3 tracks, selected track(s), add_note / '+' with Note, string, container; [] len =="))
